@@ -10,7 +10,7 @@ C12 — line-protocol driver of the model (core only). One op per line, payloads
   fd <int>      FormatDuration               pd <hex>   ParseDuration
   codec …       → `ok` (Marshal→Unmarshal equality is decided by the harness; the spec is "equal")
 -/
-import OG.C12.Model
+import OG.C12.Good
 
 namespace OG.C12
 open OG.Gen.C12
@@ -163,6 +163,8 @@ def exprAnswer (text : Str) : String :=
         -- character-level one, except where `print` marks text that does not scan back (`bad`)
         let consistent := t2c = t2t || (t2t.isNone && hasBadTok ptoks)
         let incons := if consistent then "" else " | MODEL-INCONSISTENT token-level parse differs"
+        -- every tree of the grammar model has the shape the property theorem assumes (`YaccOut`)
+        let incons := if YaccOut e then incons else incons ++ " | MODEL-INCONSISTENT YaccOut fails"
         "t1 " ++ dump e ++ " | pr " ++ pr ++ " | t2 " ++ t2 ++ incons
 
 def step (line : String) : String :=
